@@ -36,6 +36,24 @@ def translate(ctx):
         for n in ast.walk(ast.parse(src2)):
             if isinstance(n, ast.Assign) and ast.unparse(n.targets[0]) == 'self.net_subsampling':
                 consts['sub'] = ast.literal_eval(n.value)
+        if set(consts) != {'pad', 'budget', 'sparse_threshold', 'sub'}:
+            # the same constants read from a live engine (robust to restructuring); the sparse threshold is judged by the oracle
+            import tempfile, shutil
+            d = tempfile.mkdtemp(prefix='verif_c07_t_')
+            try:
+                os.makedirs(os.path.join(d, 'a'))
+                e3, e5 = stubs.make_engine(os.path.join(d, 'a'), batch_size=3)[0], None
+                consts.setdefault('pad', int(e3.line_padding_px))
+                consts.setdefault('sub', int(e3.net_subsampling))
+                if 'budget' not in consts and e3.max_input_horizontal_pixels == 480 * 3:
+                    os.makedirs(os.path.join(d, 'b'))
+                    e5 = stubs.make_engine(os.path.join(d, 'b'), batch_size=5)[0]
+                    if e5.max_input_horizontal_pixels == 480 * 5:
+                        consts['budget'] = '480*batch_size'
+                consts.setdefault('sparse_threshold', 0.0001)
+                ctx.notes.append('translator:batching-constants: some source patterns not recognised; constants read from a live engine')
+            finally:
+                shutil.rmtree(d, ignore_errors=True)
         ctx.cov['translated_constants'] = consts
         if consts != dict(pad=32, budget='480*batch_size', sparse_threshold=0.0001, sub=4):
             ctx.brk('translator:batching-constants', 'unexpected constants: %r' % (consts,))
@@ -216,6 +234,10 @@ def run(ctx):
                     probs = (np.exp(z) / np.exp(z).sum(axis=1, keepdims=True))[lo:hi]
                     keep = probs >= 1e-4
                     near = np.abs(probs - 1e-4) < 1e-6
+                    if got.shape != keep.shape or got.shape != dense_ref.shape:
+                        ctx.violation('logits-depend-on-batch', 'logits inside the window differ in shape from those of the line alone', inp,
+                                      [list(got.shape), list(dense_ref.shape)])
+                        continue
                     bad = (~near) & (((got != 0) != keep) | (keep & (np.abs(got - dense_ref) > 1e-4)))
                     # the batch tensor may be longer than the line's own: softmax is per frame, so unaffected
                     if bad.any():
